@@ -20,14 +20,14 @@ def run(v_kind):
         for fn, s in ov.items():
             open(f"{d}/lbfgsb/{fn}", "w").write(s)
         r = subprocess.run(["/venv/bin/python", "-m", "pytest", "-q", "-x", "-p", "no:cacheprovider", "--timeout=300", "tests"],
-                           cwd=d, capture_output=True, text=True, env={**os.environ, "PYTHONPATH": d})
+                           cwd=d, capture_output=True, text=True, env={**os.environ, "PYTHONPATH": d, "OMP_NUM_THREADS": "1", "OPENBLAS_NUM_THREADS": "1", "MKL_NUM_THREADS": "1"})
         last = (r.stdout.strip().splitlines() or [""])[-1]
         return v["id"], {"kind": kind, "tests": "pass" if r.returncode == 0 else "fail", "detail": last[:120]}
     finally:
         shutil.rmtree(d, ignore_errors=True)
 
 work = [(m, "M") for m in selftest.MUTANTS] + [(q, "Q") for q in selftest.QUIET]
-with ThreadPoolExecutor(max_workers=14) as ex:
+with ThreadPoolExecutor(max_workers=6) as ex:
     res = dict(ex.map(run, work))
 json.dump(res, open("/verif/sa/selftest/tests_status.json", "w"), indent=1, sort_keys=True)
 from collections import Counter
